@@ -118,6 +118,14 @@ def run_cgls(c, rec):
         ref = x0 + np.linalg.pinv(Am) @ (b - Am @ x0)
     require(maxdiff(sol, ref) <= max(1e-7, 1e4 * tolr) * (np.max(np.abs(ref)) + np.max(np.abs(x0))) + 1e-140, "CGLS result differs from the reference solution",
             got=sol, ref=ref, tol=tolr)
+    if c.get("x0_type") == "float32":
+        # data measured in single precision: the same numbers as float64 give the very same run
+        b32 = np.asarray(b, dtype=np.float32)
+        sol_d, k_d = cuqi.solver.CGLS(op_forms(Am, c["form"]), b32.astype(float), x0.copy(), maxit, tolr, s).solve()
+        sol_s, k_s = must(lambda: cuqi.solver.CGLS(op_forms(Am, c["form"]), b32, x0.copy(), maxit, tolr, s).solve(), "CGLS.solve with a float32 data vector")
+        require(k_s == k_d and maxdiff(sol_s, sol_d) <= 1e-13 * (np.max(np.abs(sol_d)) + np.max(np.abs(x0))) + 1e-140,
+                "CGLS with the data vector stored as float32 differs from the run with the same numbers as float64", k=k_s, k_float64=k_d,
+                diff=maxdiff(sol_s, sol_d))
     if c.get("x0_type", "float64") != "float64" and c.get("layout") != "readonly":
         # the same start vector written in another number type (float32, integers): the very same run
         xq = np.round(x0) if c["x0_type"] == "int" else x0.astype(np.float32).astype(float)
@@ -388,6 +396,14 @@ def run_wrap(c, rec):
                 "L_BFGS_B info differs from SciPy's result")
         require(maxdiff(info["grad"], ref[2]["grad"]) == 0, "L_BFGS_B info['grad'] differs")
         require(info["success"] == (1 if ref[2]["warnflag"] == 0 else 0), "L_BFGS_B success flag wrong")
+        # bounds are SciPy's keyword; the same solver object asked three times gives SciPy's (bounded) result three times
+        bnds = [(float(a[i]) - 0.3, float(a[i]) + 0.2 * (i + 1)) for i in range(n)]
+        solver = cuqi.solver.L_BFGS_B(f, x0.copy(), gradfunc=gf, bounds=list(bnds))
+        refb = opt.fmin_l_bfgs_b(f, x0.copy(), fprime=gf, approx_grad=0 if c["grad"] else 1, bounds=list(bnds))
+        for rep in (1, 2, 3):
+            solb, infob = must(lambda: solver.solve(), "L_BFGS_B.solve with bounds")
+            require(maxdiff(np.asarray(solb), refb[0]) == 0, f"L_BFGS_B wrapper with bounds (solve call {rep} on the same object) is not SciPy's result",
+                    got=solb, ref=refb[0])
     elif c["which"] in ("minimize", "maximize"):
         meth = c["method"]
         x_in = cuqi.array.CUQIarray(x0.copy(), geometry=cuqi.geometry.Continuous1D(n)) if c["cuqiarray"] else x0.copy()
@@ -407,6 +423,20 @@ def run_wrap(c, rec):
         require(info["success"] == ref["success"] and info["message"] == ref["message"], "success/message differ")
         if c["cuqiarray"]:
             require(isinstance(sol, cuqi.array.CUQIarray) and sol.geometry == x_in.geometry, "CUQIarray start vector: result not wrapped alike")
+        if meth is None and c["which"] == "minimize":
+            # keyword arguments are SciPy's: bounds, or a linear inequality constraint with no method named (SciPy then picks a method
+            # that honours them); and the solver object may be asked to solve more than once
+            lo, hi = a - 0.3, a + 0.2 * np.arange(1, n + 1)
+            for label, kw in (("bounds", {"bounds": list(zip(lo, hi))}),
+                              ("constraints", {"constraints": [{"type": "ineq", "fun": lambda x: 0.5 - np.sum(x - a), "jac": lambda x: -np.ones(n)}]})):
+                solver = cuqi.solver.minimize(f, x0.copy(), gradfunc=gf, **kw)
+                for rep in (1, 2, 3):
+                    refk = opt.minimize(f, x0.copy(), jac=gf, **{k: (list(v) if k == "bounds" else v) for k, v in kw.items()})
+                    solk, infok = must(lambda: solver.solve(), f"minimize.solve with {label}")
+                    require(maxdiff(np.asarray(solk), refk["x"]) == 0 and infok["nit"] == refk["nit"],
+                            f"minimize wrapper with {label} (solve call {rep} on the same object) is not SciPy's result", got=solk, ref=refk["x"])
+    elif False:
+        pass
     else:
         rfun = lambda x: np.linalg.cholesky(H).T @ (x - a) + q * np.sin(x - a)
         L = np.linalg.cholesky(H).T
